@@ -8,13 +8,29 @@ ENGINE_NOTE = ("Theorems are about the Lean model Engine.step? (every graph, wor
                "run_function_on_graph.py on every run, and T3 replays schedule-controlled traces of the real engine through step? with state "
                "snapshots. Trusted: Lean kernel, the translator, the cooperative scheduler harness, CPython queue/threading/GIL atomicity, "
                "networkx adjacency; lock-protected regions are collapsed to single steps (premises extracted by T1).")
+CACHE_NOTE = ("Theorems are about the Lean store-level model (Model/Cache.lean: logical plan with registry, stale check with the comparison "
+              "regenerated from caching.py as Gen.Stale.staleCond, from-scratch evaluation FS, World with a logical clock; Model/History.lean: "
+              "completed writes / source updates / deletions), for ALL plans, store states, histories, fresh_time values; no bound. Tie to the code: "
+              "T1 regenerates Gen/Stale.lean on every run; T2 drives the real uberjob.run with in-memory stores through seeded histories under "
+              "controlled schedules and compares, after every step, stale sets (3 fresh_time values), every store's content and modified time, the "
+              "value of every write and every output with the Lean driver. Trusted: Lean kernel, translator, harness, the ValueStore contract "
+              "(read returns what was written, each write gets a newer modified time), determinism of call functions (Herbrand values); that the "
+              "store events of one run are completed writes in ancestor-first order is C09/C01/C04's subject.")
 CLAIMED = {
  "C01": ("proof", "Lean 4 proof (inductive invariant over an executable engine model) + trace refinement check",
          "For every reachable state of the engine model a begun node has every (transitive) predecessor completed OK (C01_direct, C01_transitive, "
          "C01_enqueued, C01_counter). Kernel-checked for all graphs/schedules; tied to the code by regenerated Gen + trace replay of the real engine.", "4/C01"),
+ "C03": ("proof", "Lean 4 proof (perturbation lemma + invariant Good over all histories) + differential history replay",
+         "Good (every stored value the next run treats as up to date equals its from-scratch value) is preserved by every completed write, source update "
+         "and deletion in any order (C03_good_preserved); a complete run then leaves every stored value and every node's visible value equal to from-scratch "
+         "(C03_history, C03_write_value, C03_good_init).", "4/C03"),
  "C04": ("proof", "Lean 4 proof (place-counting invariant) + trace refinement check",
          "No node is begun or enqueued twice in any reachable state, every enqueued node is in exactly one place, only graph nodes run "
          "(C04_once, C04_enqueued_once, C04_place, C04_only_graph_nodes).", "4/C04"),
+ "C05": ("proof", "Lean 4 proof (stale check = declarative out-of-date relation; idempotence of a complete run) + differential history replay",
+         "isStale (the model of _get_stale_nodes over the regenerated comparison) holds exactly for the nodes that are out of date in the declarative sense "
+         "(C05_stale_spec), is inherited downstream, is monotone in fresh_time, and is empty after a complete run (C05_idempotent). The harness checks on the "
+         "real code that the rewritten stores are exactly the declaratively out-of-date ones and that a repeated run does nothing.", "4/C05"),
  "C06": ("proof", "Lean 4 proof (inductive invariants) + trace refinement check",
          "Nothing reachable from a failed node is ever begun; first_node_error is exactly the first recorded failure and is set iff a call failed "
          "(C06_contain, C06_error, C06_error_real, C06_raises_iff, C06_failed_not_ok).", "4/C06"),
@@ -23,6 +39,10 @@ CLAIMED = {
          "worker_count threads, all exited, nothing running, nothing enabled afterwards; a cycle makes the Kahn model raise and a completed sort is a "
          "topological order of all nodes (C07_terminates, C07_no_deadlock, C07_can_finish, C07_quiescent, C07_nothing_later, C07_cycle_rejected, "
          "C07_kahn_sound, C07_acyclic_first, C07_skeleton). The cooperative scheduler's deadlock detector runs on every controlled schedule.", "4/C07"),
+ "C08": ("proof", "Lean 4 proof (Good preserved by every prefix of every history, no ordering assumption) + cut injection at random events",
+         "Whatever subset of writes completed before a cut, in whatever order, Good holds (C08_cut, C08_every_prefix, C08_fault); the next complete run is "
+         "correct (C08_next_run_correct); completed writes whose upstream was settled are not out of date afterwards (C08_no_redo). Process death for file "
+         "stores is delegated to C11.", "4/C08"),
  "C10": ("proof", "Lean 4 proof (error-bound invariant over generated stop condition) + trace refinement check",
          "running <= workers, pool size <= workers, failures <= k + workers for max_errors = k, no early stop, idle workers can always take ready "
          "items (C10_workers, C10_pool, C10_errors_bound, C10_no_early_stop, C10_none, C10_parallel, C10_parallel_begin).", "4/C10"),
@@ -49,6 +69,7 @@ for p in ALL:
         m["checks"].append({
             "property_id": p, "quick_cmd": f"./check {p} --tier quick", "thorough_cmd": f"./check {p} --tier thorough",
             "evidence_file": f"evidence/{p}.json", "replay_cmd_template": f"./check {p} --replay {{path}}", "engine": "lean-model",
-            "level_claimed": {"category": cat, "text": text, "design_ref": ref}, "level_note": ENGINE_NOTE, "technique": tech})
+            "level_claimed": {"category": cat, "text": text, "design_ref": ref},
+            "level_note": CACHE_NOTE if p in ("C03", "C05", "C08") else ENGINE_NOTE, "technique": tech})
 json.dump(m, open(os.path.join(V, "MANIFEST.json"), "w"), indent=1)
 print("claimed", sorted(CLAIMED))
